@@ -130,6 +130,13 @@ M = {
    [("smtp/smtp.go", "\tlogMsg = []interface{}{code, msg}\n\tif c.authIsActive && code >= 300 && code <= 400 {", "\tlogMsg = []interface{}{code, msg}\n\tif code >= 500 {\n\t\tc.authIsActive = false\n\t}\n\tif c.authIsActive && code >= 300 && code <= 400 {")]),
  "C17-no-deadline-before-noop": ("C17", ["C17"], "checkConn sends NOOP before extending the deadline again",
    [("client.go", "\tif err := client.UpdateDeadline(c.connTimeout); err != nil {\n\t\treturn ErrDeadlineExtendFailed\n\t}\n\n\tc.mutex.RLock()\n\tnoNoop := c.noNoop", "\tc.mutex.RLock()\n\tnoNoop := c.noNoop"), ("client.go", "\t\t\treturn ErrNoActiveConnection\n\t\t}\n\t}\n\treturn nil\n}\n\n// serverFallbackAddr", "\t\t\treturn ErrNoActiveConnection\n\t\t}\n\t}\n\tif err := client.UpdateDeadline(c.connTimeout); err != nil {\n\t\treturn ErrDeadlineExtendFailed\n\t}\n\treturn nil\n}\n\n// serverFallbackAddr")]),
+ "C03-delivered-flag-survives-failed-conncheck": ("C03", ["C03"], "a Send failing its connection check leaves the delivered flag of an earlier Send (the fix removed)",
+   [("client_120.go", "\t\t\tif message != nil {\n\t\t\t\tmessage.isDelivered = false\n\t\t\t}", "\t\t\tif message != nil && false {\n\t\t\t\tmessage.isDelivered = false\n\t\t\t}")]),
+ "C04-connection-kept-after-missed-reply": ("C04", ["C04"], "the connection stays in use after a reply read timed out (the fix removed)",
+   [("smtp/smtp.go", "\tif err != nil && errors.As(err, &netErr) && netErr.Timeout() {", "\tif err != nil && errors.As(err, &netErr) && netErr.Timeout() && false {")]),
+ "C04-deadline-rearmed-per-message": ("C04", ["C04"], "missed-reply drop removed AND the deadline re-armed for every message of a batch (round-9 seed on the tree before the fix)",
+   [("smtp/smtp.go", "\tif err != nil && errors.As(err, &netErr) && netErr.Timeout() {", "\tif err != nil && errors.As(err, &netErr) && netErr.Timeout() && false {"),
+    ("client.go", "\tmessage.sendError = nil\n\tmessage.isDelivered = false\n", "\tmessage.sendError = nil\n\tmessage.isDelivered = false\n\t_ = client.UpdateDeadline(c.connTimeout)\n")]),
  "C17-deadline-times-thousand": ("C17", ["C17"], "deadline armed with timeout*1000",
    [("smtp/smtp.go", "c.conn.SetDeadline(time.Now().Add(timeout))", "c.conn.SetDeadline(time.Now().Add(timeout * 1000))")]),
  "C17-dial-deadline-cleared-after-greeting": ("C17", ["C17"], "the dial-phase deadline is cleared once the greeting was read",
